@@ -82,6 +82,12 @@ func c11(c *q.Ctx) {
 	// writes to the ACL buckets
 	vr := c.Fn(st + "(*State).verifyRWSetPermission")
 	if vr != nil {
+		// the arms below can be by-passed only by a transaction that carries no contract request at all (whoever
+		// wrote the ACL buckets - a kernel request, a contract deployed under a bucket's name, a cross-contract call)
+		c.OnlyUnder(vr, q.ToSuccess(), []q.Cond{
+			{Canon: "(nil == p1.ContractRequests)", Sense: true},
+			{Canon: "(#i < len(phi{[]|append(loop,[local<PureData>])}))", Sense: false},
+		}, "accepted without looking at the write set only when there is no request; otherwise only after every written ACL entry was judged")
 		ele := "phi{[]|append(loop,[local<PureData>])}[]"
 		c.Effect(vr, q.Eff{Spec: "utils::IdentifyAccount", Arg: 1, Glob: ele + ".Key", Req: []q.Cond{{Canon: "(" + ele + ".Bucket == utils.GetAccountBucket())", Sense: true}, {Canon: "p2[" + ele + ".Key]", Sense: false}}, Why: "changing an account's rule requires satisfying that account's current rule", Rule: "K7"})
 		c.Effect(vr, q.Eff{Spec: "State.verifyContractOwnerPermission", Arg: 0, Glob: ele + ".Key[:*]", Req: []q.Cond{{Canon: "(" + ele + ".Bucket == utils.GetContractBucket())", Sense: true}}, Why: "changing a contract method's rule requires the owning account", Rule: "K7"})
